@@ -77,6 +77,29 @@ func genLabel(t *rapid.T, max int) string {
 	return string(b)
 }
 
+// optionalSpelling: the argument vector uses a spelling the plugin may accept or refuse (a search
+// domain with its trailing dot)
+func optionalSpelling(c *OptCase) bool {
+	if c.Plugin != "searchdomains" {
+		return false
+	}
+	for _, a := range c.Args {
+		if strings.HasSuffix(a, ".") {
+			return true
+		}
+	}
+	return false
+}
+
+// plainNames is the list of names the arguments denote
+func plainNames(args []string) []string {
+	var r []string
+	for _, a := range args {
+		r = append(r, strings.TrimSuffix(a, "."))
+	}
+	return r
+}
+
 func genDomain(t *rapid.T) string {
 	n := rapid.IntRange(1, 4).Draw(t, "nlabels")
 	var ls []string
@@ -145,6 +168,12 @@ func genArgs(t *rapid.T, plugin string, v6 bool) []string {
 		}
 		if len(a) == 0 {
 			a = []string{"example.com"}
+		}
+		if rapid.IntRange(0, 7).Draw(t, "rooted") == 0 {
+			// the fully-qualified spelling of resolv.conf and zone files. Whether it is accepted is the
+			// plugin's choice; if it is, the name is the same name (the root label is the terminator)
+			i := rapid.IntRange(0, len(a)-1).Draw(t, "rooted-which")
+			a[i] += "."
 		}
 		return a
 	case "staticroute":
@@ -303,7 +332,7 @@ func expected4(c *OptCase, stubType dhcpv4.MessageType, stubHas map[uint8]bool) 
 			e.set[26] = be16(uint16(v))
 		}
 	case "searchdomains":
-		e.names[119] = c.Args
+		e.names[119] = plainNames(c.Args)
 	case "staticroute":
 		var b []byte
 		for _, a := range c.Args {
@@ -422,6 +451,10 @@ func ExecOpt(c OptCase) (res core.Result) {
 		return execOpt6(c, res)
 	}
 	h, err := p.Setup4(c.Args...)
+	if err != nil && optionalSpelling(&c) {
+		res.Classes = append(res.Classes, "optional-spelling-refused")
+		return
+	}
 	if err != nil || h == nil {
 		res.Viol = core.Violate("C17/"+c.Plugin+"/setup-rejects-valid-args", "Setup4(%q): %v", c.Args, err)
 		return
@@ -547,6 +580,10 @@ func ExecOpt(c OptCase) (res core.Result) {
 func execOpt6(c OptCase, res core.Result) core.Result {
 	p := plug.ByName(c.Plugin)
 	h, err := p.Setup6(c.Args...)
+	if err != nil && optionalSpelling(&c) {
+		res.Classes = append(res.Classes, "optional-spelling-refused")
+		return res
+	}
 	if err != nil || h == nil {
 		res.Viol = core.Violate("C17/"+c.Plugin+"/setup-rejects-valid-args", "Setup6(%q): %v", c.Args, err)
 		return res
@@ -660,7 +697,7 @@ func execOpt6(c OptCase, res core.Result) core.Result {
 		}
 		if i == namesAt {
 			dec, okd := gen.DecodeNames(after[i].Data)
-			if !okd || strings.Join(dec, " ") != strings.Join(c.Args, " ") {
+			if !okd || strings.Join(dec, " ") != strings.Join(plainNames(c.Args), " ") {
 				res.Viol = core.Violate("C17/"+c.Plugin+"/wrong-value", "v6 args %q: option 24 decodes to %q (ok=%v)", c.Args, dec, okd)
 				return res
 			}
